@@ -46,8 +46,48 @@ def _keyword_case(repo, rep):
         where=L.where(f))
 
 
+def _quote_never_empty(repo, rep, rule="R02.1"):
+    """The escaping routine replaces the attribute's quote character by its
+    entity: with an *empty* quote (a value written without quotes)
+    str.replace('', '&#0;') puts the entity between all characters and
+    nothing delimits the value.  Wherever a computed value goes into an
+    attribute that has a value, the quote handed on must be non-empty."""
+    f = repo.func("chameleon.zpt.program.MacroProgram."
+                  "_create_attributes_nodes")
+    v = L.emission(repo, f.qualname).value
+    PFX = "each(enumerate(prepared))[1]"
+    raw = PFX + "[2]"
+    n = 0
+    bad = []
+    sites = []
+    for w in A.walk(v):
+        if isinstance(w, A.NodeV) and w.kind == "Attribute" and \
+                len(w.args) > 2:
+            sites.append(("Attribute.quote", w.args[2]))
+        elif isinstance(w, A.NodeV) and w.kind in ("Substitution",) and \
+                len(w.args) > 1 and isinstance(w.args[1], A.Tup):
+            its = A.items_of(w.args[1])
+            if len(its) == 4:
+                sites.append(("escape-set quote", its[3]))
+    for what, q in sites:
+        n += 1
+        t = A.show(q, limit=8)
+        dq, sq = chr(34), chr(39)
+        quotes = (sq + dq + sq, dq + sq + dq, repr(dq), repr(sq))
+        guarded = isinstance(q, A.Alt) and ("not " + raw) in q.test and \
+            A.show(q.a) in quotes
+        if t == raw or (raw in t and not guarded):
+            bad.append("%s = %s" % (what, t[:80]))
+    rep.check(n >= 2 and not bad, rule, f.qualname, "the quote character "
+              "given to the escaping machinery for a computed attribute "
+              "value is never the empty quote of an unquoted static value",
+              construct="quote-never-empty", where=L.where(f),
+              detail="; ".join(bad[:2]))
+
+
 def _content_total(repo, rep):
     _keyword_case(repo, rep)
+    _quote_never_empty(repo, rep)
     from .c01 import content_node_total
     okc, detail = content_node_total(repo)
     rep.check(okc, "R02.1", "chameleon.zpt.program.MacroProgram."
